@@ -8,6 +8,7 @@ fn factory(model: &str) -> Option<Factory> {
     Some(match model {
         "proof_graph" => Box::new(|c: &Value| Box::new(models::proof_graph::PG::new(c)) as Box<dyn Model>),
         "modules" => Box::new(|c: &Value| Box::new(models::modules::MM::new(c)) as Box<dyn Model>),
+        "tms" => Box::new(|c: &Value| Box::new(models::tms::TmsM::new(c)) as Box<dyn Model>),
         _ => return None,
     })
 }
